@@ -1,6 +1,7 @@
 import SFV.Lemmas.CombDotSpec
 import SFV.Lemmas.CombCartMain
 import SFV.Lemmas.CombNested
+import SFV.Lemmas.CombNestedCart
 /-! # C02 — combinators emit exactly the right combinations, whatever the arrival order
 
 Property theorems only. The statements are about the LOOP-FAITHFUL executable model of
@@ -169,5 +170,34 @@ example :
     (specE items.length (derived items es [])).length = 4 ∧ (runNested items es).out.length = 4 := by
   unfold CF.WF ElemOK
   decide +kernel
+
+/-- **Nested `dot[cart₁[p0 … p(Pi-1)], plain ports]`, any arrival order** (the tree the CWL translator builds for a
+    cross-product scatter plus non-scattered inputs). `WFNest Pi L plains S`: the tokens of the inner ports form a
+    well-formed stream of the depth-1 cartesian product (`WFCart 1 Pi L`), all tags are rooted at `0`, no repeated
+    event, the other tokens arrive on the listed plain ports, on every plain port no tag is a prefix of another.
+    `derivedSpec Pi plains S` — a function of the stream only — lists the elements the outer dot product combines:
+    the specified schemas of the inner cartesian product (`specCart`) and the tokens of the plain ports. For every
+    arrival order the emitted schemas are, each up to the order of its entries, exactly one combination per
+    complete tag of `derivedSpec` (`specE`): the composition of the two rules, the same multiset for every order.
+    NOT covered: an inner dot product, an inner cartesian product of depth ≥ 2, and the absence of an exception
+    AFTER the last specified emission (`EmRel` forces all specified schemas to be emitted). -/
+theorem nested_cart_any_order (Pi L : Nat) (plains : List Nat) (S es : List Ev) (hwf : WFNest Pi L plains S)
+    (hperm : es.Perm S) :
+    ∃ N, EmRel (runNested (nestItems Pi plains) es).out N ∧
+      N.Perm (specE (plains.length + 1) (derivedSpec Pi plains S)) :=
+  Comb.nested_cart_any_order S es hwf hperm
+
+/-- non-vacuity: two inner ports with two tokens each, the broadcast token `0` on plain port 2 -/
+example : WFNest 2 2 [2] [(0, ⟨[0, 0], 1⟩), (0, ⟨[0, 1], 2⟩), (1, ⟨[0, 0], 3⟩), (1, ⟨[0, 1], 4⟩), (2, ⟨[0], 5⟩)] := by
+  constructor
+  · unfold WFCart; decide
+  · unfold Rooted; decide
+  · decide
+  · decide
+  · decide
+  · decide
+example : (specE 2 (derivedSpec 2 [2]
+    [(0, ⟨[0, 0], 1⟩), (0, ⟨[0, 1], 2⟩), (1, ⟨[0, 0], 3⟩), (1, ⟨[0, 1], 4⟩), (2, ⟨[0], 5⟩)])).map (·.1) =
+    [[0, 0, 0], [0, 0, 1], [0, 1, 0], [0, 1, 1]] := by decide +kernel
 
 end SFV.C02
